@@ -17,7 +17,7 @@ prio = st.one_of(st.sampled_from(BUILTIN), st.sampled_from(BUILTIN),
 def inner_ops(depth):
     simple = st.one_of(
         st.tuples(st.just('p'), asset), st.tuples(st.just('u'), asset), st.tuples(st.just('c'), asset),
-        st.tuples(st.just('past'), st.sampled_from([0.125, 1, 7])),
+        st.tuples(st.just('past'), st.sampled_from([0.125, 1, 7, 'ulp', 1e-12, 2.0 ** -20])),
     ).map(list)
     if depth <= 0:
         return st.lists(simple, max_size=2)
@@ -33,7 +33,7 @@ def top_op(with_past=True):
     run = st.tuples(st.just('run'), st.sampled_from([0, 0.25, 0.5, 1, 1, 1.5, 2, 3.25])).map(list)
     alts = [sched, sched, sched, simple, simple, step, run]
     if with_past:
-        alts.append(st.tuples(st.just('past'), st.sampled_from([0.125, 1, 7])).map(list))
+        alts.append(st.tuples(st.just('past'), st.sampled_from([0.125, 1, 7, 'ulp', 1e-12, 2.0 ** -20])).map(list))
         alts.append(st.tuples(st.just('again'), st.integers(0, 5)).map(list))
     return st.one_of(*alts)
 
